@@ -91,11 +91,11 @@ PROPS = {
         "Verus proves per diff variant that every prefix of the diffs handle_diff emits keeps the Head/Tail view within the limit (prefixes_bounded, proved equivalent to the for-all-prefixes statement), and that the constructors' initial values respect the bound. The glue is bounded (length checked after every single diff).",
         "stand-ins assumed; " + GLUE,
         VERUS + "; " + BND + " (glue)", [GLUE]),
-    "C16": P("exploration", [], ["obs-async"],
+    "C16": P("exploration", [], ["obs-async", "obs-held"],
         "Bounded so far: the same exhaustive handle histories as for C01-C03/C19 are run on the async-lock flavour (every future polled by hand; nothing ever has to wait in these histories) and compared with the same reference model as the sync flavour: same values, readiness, wake-ups, end of stream and counts.",
-        "bounded stand-in; lock waiting (writer woken on release, subscriber polled under a write guard) not yet covered",
+        "bounded stand-in; lock waiting is covered by the held-guard scenarios (operations queued behind a write/read guard must be woken on release and take effect atomically in queue order)",
         BND, [BOUNDED_NOTE]),
-    "C19": P("exploration", [], ["obs", "obs-async"],
+    "C19": P("exploration", [], ["obs-counts", "obs-async-counts"],
         "Bounded so far: after every operation of every enumerated handle history (clone, subscribe, downgrade, upgrade, into_shared, drops; at most 3 owners, 3 subscribers, 2 weak references) observable_count, subscriber_count, strong_count and weak_count reported by every owner equal the model's numbers, for both lock flavours.",
         "bounded stand-in, exhaustive in the stated scope; handle-count contracts pending",
         BND, [BOUNDED_NOTE]),
